@@ -86,3 +86,9 @@ func newPair() (a, b *node, sab, sba *state.Session, err error) {
 }
 
 func (n *node) st_cfg() *config.Config { return &config.Config{} }
+
+func newNodeWithID(id *m.Address) (*node, error) {
+	n := &node{id: id}
+	n.st = state.New(&instStub{id: id, cfg: &config.Config{}}, nil)
+	return n, nil
+}
